@@ -156,3 +156,9 @@ TEXT["C07"] = dict(
     note="Two genuine defects repaired in /repo (V3/V4 sources rebuilt to an empty archive reported as success, silent skip of unreadable files, count underflow; compare summary underflow). Reader and builder correctness are C01's subject and are assumed here.",
     technique="Lean 4 proof (structural induction over the listing; map refinement) + differential correspondence over source x target x options",
 )
+
+TEXT["C10"] = dict(
+    text="Machine-checked Lean 4 theorems: changing any single byte of a buffer of any length changes its ADLER32 and its CRC32 (the latter via injectivity of the table-driven register step, with the table facts checked by kernel evaluation over all 256 entries); whatever the sectored reader returns matches every stored sector checksum, a raw sector with one altered byte fails the read, and intact sectors are accepted unchanged; SFileVerifyFile's decision accepts only content matching the CRC32/MD5 attributes and rejects any one-byte change; the weak signature's digest input differs whenever two archives differ in a byte outside the signature file (full coverage). Tied to the code by running the Lean checksum definitions against adler2/crc32fast, the digest-coverage model against calculate_mpq_hash_md5, and by altering every protected offset of archives carrying each kind of metadata with an oracle 'failure reported or content bit-identical'.",
+    note="Partial by nature: MD5/RSA strength is assumed; multi-byte alterations are covered by checksums only probabilistically (sampled). Four genuine defects repaired in /repo: sector checksums of multi-sector files were never verified (and damaged offsets/empty sectors returned zeros); builder wrote HET/BET positions in the wrong header order so V4 digests failed on intact archives; header-controlled allocations aborted the process.",
+    technique="Lean 4 proof (algebraic detection lemmas for ADLER32/CRC32, soundness of accept/reject logic, coverage of the signed range) + exhaustive-offset corruption oracle and checksum correspondence",
+)
